@@ -639,6 +639,231 @@ fn selftest() -> (u64, u64) {
     (inj, det)
 }
 
+/// One long history (n writes of alternating shapes, then drop): every seek and flush of the fault-free run, and
+/// the first and last 40 operations of each device, failing once.  The call during which the operation failed
+/// must return an error.
+pub fn long_verdicts(ty: Ty, n: usize, only: Option<(u8, u64)>) -> (Vec<(Value, String, String)>, u64) {
+    let pal = Palette::new(ty, None);
+    let run = |fault: Option<(u8, u64)>, logging: bool| -> (WEnv, Vec<bool>) {
+        let env = WEnv::new(true);
+        if !logging {
+            env.shp.0.borrow_mut().logging = false;
+            env.shx.as_ref().unwrap().0.borrow_mut().logging = false;
+        }
+        if let Some((d, k)) = fault {
+            (if d == 0 { env.shp.clone() } else { env.shx.clone().unwrap() }).fail_at(k, FaultMode::OneShot);
+        }
+        let mut ok = Vec::with_capacity(n);
+        {
+            let mut w = ShapeWriter::with_shx(env.shp.clone(), env.shx.clone().unwrap());
+            for i in 0..n {
+                env.set_call(i as u32);
+                ok.push(crate::bridge::write_shape(&mut w, &pal.lib[i % 2]).is_ok());
+            }
+            env.set_call(n as u32);
+        }
+        (env, ok)
+    };
+    let mut points: Vec<(u8, u64)> = vec![];
+    match only {
+        Some(p) => points.push(p),
+        None => {
+            let (base, _) = run(None, true);
+            for (d, log) in [(0u8, base.shp.log()), (1u8, base.shx.as_ref().unwrap().log())] {
+                let l = log.len();
+                for (k, op) in log.iter().enumerate() {
+                    if !matches!(op, Op::Write { .. }) || k < 40 || k + 40 >= l {
+                        points.push((d, k as u64));
+                    }
+                }
+            }
+        }
+    }
+    let mut out = vec![];
+    let npoints = points.len() as u64;
+    for (d, k) in points {
+        let cj = json!({"ty": ty.name(), "long_history": n, "fault_on": (["shp", "shx"][d as usize]), "operation": k});
+        match catch(|| run(Some((d, k)), false)) {
+            Ok((env, ok)) => {
+                let calls: Vec<u32> = env.shp.fault_calls().into_iter().chain(env.shx.as_ref().unwrap().fault_calls()).collect();
+                for c in calls {
+                    if (c as usize) < n && ok[c as usize] {
+                        out.push((cj.clone(), format!("{}:long-history:failure-not-reported", ty.name()), format!("operation {} on .{} failed once during write_shape number {} of {}, which returned Ok", k, ["shp", "shx"][d as usize], c, n)));
+                    }
+                }
+            }
+            Err(p) => out.push((cj, format!("{}:long-history:{}", ty.name(), p.sig()), p.msg)),
+        }
+    }
+    (out, npoints)
+}
+
+/// A destination that keeps the first 100 bytes, its extent and where every write landed, and discards the rest:
+/// files beyond 2 GiB without the memory.
+#[derive(Clone)]
+pub struct Sink(pub std::rc::Rc<std::cell::RefCell<SinkInner>>);
+pub struct SinkInner {
+    pub head: Vec<u8>,
+    pub pos: u64,
+    pub extent: u64,
+    pub nops: u64,
+    pub fail_at: Option<u64>,
+    pub fired: bool,
+    /// (position, length) of every write of at most 64 bytes behind the header
+    pub small_writes: Vec<(u64, u32)>,
+}
+impl Sink {
+    pub fn new(fail_at: Option<u64>) -> Sink {
+        Sink(std::rc::Rc::new(std::cell::RefCell::new(SinkInner { head: vec![0; 100], pos: 0, extent: 0, nops: 0, fail_at, fired: false, small_writes: vec![] })))
+    }
+}
+impl SinkInner {
+    fn gate(&mut self) -> std::io::Result<()> {
+        let k = self.nops;
+        self.nops += 1;
+        if self.fail_at == Some(k) {
+            self.fired = true;
+            return Err(std::io::Error::new(std::io::ErrorKind::Other, INJECTED));
+        }
+        Ok(())
+    }
+}
+impl std::io::Write for Sink {
+    fn write(&mut self, buf: &[u8]) -> std::io::Result<usize> {
+        let mut d = self.0.borrow_mut();
+        d.gate()?;
+        let pos = d.pos;
+        for (i, b) in buf.iter().enumerate() {
+            let p = pos + i as u64;
+            if p >= 100 {
+                break;
+            }
+            d.head[p as usize] = *b;
+        }
+        if buf.len() <= 64 && pos >= 100 {
+            d.small_writes.push((pos, buf.len() as u32));
+        }
+        d.pos += buf.len() as u64;
+        d.extent = d.extent.max(d.pos);
+        Ok(buf.len())
+    }
+    fn flush(&mut self) -> std::io::Result<()> {
+        self.0.borrow_mut().gate()
+    }
+}
+impl std::io::Seek for Sink {
+    fn seek(&mut self, from: std::io::SeekFrom) -> std::io::Result<u64> {
+        let mut d = self.0.borrow_mut();
+        d.gate()?;
+        let new = match from {
+            std::io::SeekFrom::Start(n) => n as i128,
+            std::io::SeekFrom::End(n) => d.extent as i128 + n as i128,
+            std::io::SeekFrom::Current(n) => d.pos as i128 + n as i128,
+        };
+        if new < 0 || new > u64::MAX as i128 {
+            return Err(std::io::Error::new(std::io::ErrorKind::InvalidInput, "seek to a negative or overflowing position"));
+        }
+        d.pos = new as u64;
+        Ok(d.pos)
+    }
+}
+
+/// a user-defined multipoint-typed shape whose content is `size` zero bytes
+struct Blob {
+    size: usize,
+}
+impl shapefile::record::HasShapeType for Blob {
+    fn shapetype() -> shapefile::ShapeType {
+        shapefile::ShapeType::Multipoint
+    }
+}
+impl shapefile::record::WritableShape for Blob {
+    fn size_in_bytes(&self) -> usize {
+        self.size
+    }
+    fn write_to<T: std::io::Write>(&self, dest: &mut T) -> Result<(), shapefile::Error> {
+        let chunk = vec![0u8; 1 << 20];
+        let mut left = self.size;
+        while left > 0 {
+            let n = left.min(chunk.len());
+            dest.write_all(&chunk[..n])?;
+            left -= n;
+        }
+        Ok(())
+    }
+}
+impl shapefile::record::EsriShape for Blob {
+    fn x_range(&self) -> [f64; 2] {
+        [0.0, 0.0]
+    }
+    fn y_range(&self) -> [f64; 2] {
+        [0.0, 0.0]
+    }
+}
+
+/// A .shp beyond 2 GiB (two records of 1 GiB + 4 KiB each, then small ones): `[W big, W big, F, W small, W small,
+/// drop]` with operation k of the .shp failing once, against the undisturbed run: same header, same extent,
+/// every small write behind the header at the same place.
+pub fn giant_verdicts(only: Option<u64>) -> (Vec<(Value, String, String)>, u64) {
+    let run = |fault: Option<u64>| -> Result<(Vec<bool>, Sink, Sink), PanicInfo> {
+        let (shp, shx) = (Sink::new(fault), Sink::new(None));
+        let (s2, x2) = (shp.clone(), shx.clone());
+        catch(move || {
+            let mut ok = vec![];
+            {
+                let mut w = ShapeWriter::with_shx(s2.clone(), x2.clone());
+                let big = Blob { size: (1 << 30) + 4096 };
+                let small = Blob { size: 40 };
+                ok.push(w.write_shape(&big).is_ok());
+                ok.push(w.write_shape(&big).is_ok());
+                ok.push(w.finalize().is_ok());
+                ok.push(w.write_shape(&small).is_ok());
+                ok.push(w.write_shape(&small).is_ok());
+            }
+            (ok, s2, x2)
+        })
+    };
+    let mut out = vec![];
+    let base = match run(None) {
+        Ok(b) => b,
+        Err(p) => return (vec![(json!({"giant_file": true}), format!("giant-file:{}", p.sig()), p.msg)], 1),
+    };
+    let nops = base.1 .0.borrow().nops;
+    // the operations of the finalize and of the two small writes (the tail), and the first 8
+    let points: Vec<u64> = match only {
+        Some(k) => vec![k],
+        None => (0..8).chain(nops.saturating_sub(80)..nops).collect(),
+    };
+    let n = points.len() as u64;
+    for k in points {
+        let cj = json!({"giant_file": true, "operation": k});
+        match run(Some(k)) {
+            Err(p) => out.push((cj, format!("giant-file:{}", p.sig()), format!("operation {} of the .shp fails once on a file beyond 2 GiB: {}", k, p.msg))),
+            Ok((ok, shp, shx)) => {
+                if !shp.0.borrow().fired {
+                    continue;
+                }
+                // undisturbed outcome is only expected when every explicit call after the failed one succeeded
+                // and the failed call was the finalize (a failed write is not in the file)
+                let failed: Vec<usize> = ok.iter().enumerate().filter(|(_, b)| !**b).map(|(i, _)| i).collect();
+                if failed == vec![2usize] {
+                    let (a, b) = (shp.0.borrow(), base.1 .0.borrow());
+                    let tail = |v: &Vec<(u64, u32)>| -> Vec<(u64, u32)> {
+                        let mut t: Vec<(u64, u32)> = v.iter().copied().filter(|(p, _)| *p >= (2u64 << 30)).collect();
+                        t.sort_unstable();
+                        t.dedup();
+                        t
+                    };
+                    if a.head != b.head || a.extent != b.extent || tail(&a.small_writes) != tail(&b.small_writes) || shx.0.borrow().head != base.2 .0.borrow().head || shx.0.borrow().extent != base.2 .0.borrow().extent {
+                        out.push((cj, "giant-file:files-differ-after-later-finalize".to_string(), format!("operation {} of the .shp failed once during finalize on a file beyond 2 GiB; every later call succeeded and drop finalized, yet header / extent ({} vs {}) / record positions behind 2 GiB ({:?} vs {:?}) differ from the undisturbed run", k, a.extent, b.extent, tail(&a.small_writes).first(), tail(&b.small_writes).first())));
+                    }
+                }
+            }
+        }
+    }
+    (out, n)
+}
+
 const BIG_CHUNKS: [usize; 7] = [7, 512, 4096, 65536, 100_000, 131_071, 1 << 20];
 
 /// A shape with a part of n points written twice through destinations that accept at most `chunk` bytes per
@@ -707,6 +932,32 @@ pub fn check(tier: Tier) -> i32 {
             }
         }
     }
+    // a .shp beyond 2 GiB on a discarding destination, faults in the finalize and the writes behind it
+    {
+        let (v, n) = giant_verdicts(None);
+        big.lib_calls += n * 6;
+        for i in 0..n {
+            let mut hh = Fnv::new();
+            hh.str(&format!("giant{}", i));
+            big.case_done(hh.finish(), true, 12);
+        }
+        for (cj, sig, d) in v {
+            big.violation(sig, || cj, || d);
+        }
+    }
+    // one long history, faults at every seek / flush and at both ends
+    for (ty, n) in tier.pick(vec![(Ty::Point, 131_073usize)], vec![(Ty::Point, 131_073), (Ty::Point, 300_001), (Ty::PolylineM, 131_073)]) {
+        let (v, npoints) = long_verdicts(ty, n, None);
+        big.lib_calls += npoints * 2;
+        for i in 0..npoints {
+            let mut hh = Fnv::new();
+            hh.str(&format!("long{}{}{}", ty.name(), n, i));
+            big.case_done(hh.finish(), true, 10);
+        }
+        for (cj, sig, d) in v {
+            big.violation(sig, || cj, || d);
+        }
+    }
     let mut agg = agg;
     {
         let e = merge(vec![big]);
@@ -726,7 +977,7 @@ pub fn check(tier: Tier) -> i32 {
             tier,
             level: "fault_enumeration",
             engine: "writer histories on the real ShapeWriter over fault-injecting / short-writing devices; one execution per (workload, fault point or chunking schedule)",
-            rule: "workloads = every history over {Wa, Wb, F} up to the length bound x {with, without .shx} x types, ending in drop; fault points = every operation index k (write, seek or flush, counted on the fault-free log of this tree) on each device x {one-shot, persistent}; a one-shot fault inside a finalize is followed by the same history with that finalize retried; a second one-shot fault at every operation of that retry (same or other device) followed by a third call; every fault point again under uniform short writes (chunk 1 and 7; thorough 1, 3, 7, 16); a one-shot fault inside a finalize that is NOT retried at once: the history goes on and the files after drop equal the undisturbed run; for histories up to the extra bound: every fault point again with ErrorKind Interrupted (the operation failing 1..4 times in a row), WouldBlock (1..2 times), TimedOut, and with writes that accept 0 bytes (an interrupted operation may be tried again, then the run must be indistinguishable from the undisturbed one incl. flushed state; every other kind must be reported), every fault point again on destinations that already hold longer stale content, and every unordered pair of one-shot faults anywhere in the history (files, up to their declared length, equal the undisturbed run of the history without the failed writes); chunking = uniform c in {1,2,3,4,5,7,8,9,15,16,17} (and 7..2^20 on shapes of 8193..70001 points) and, for every write call j, 'call j moves 1 byte' and 'call j moves len-1 bytes'; every case is non-trivial",
+            rule: "workloads = every history over {Wa, Wb, F} up to the length bound x {with, without .shx} x types, ending in drop; fault points = every operation index k (write, seek or flush, counted on the fault-free log of this tree) on each device x {one-shot, persistent}; a one-shot fault inside a finalize is followed by the same history with that finalize retried; a second one-shot fault at every operation of that retry (same or other device) followed by a third call; every fault point again under uniform short writes (chunk 1 and 7; thorough 1, 3, 7, 16); a one-shot fault inside a finalize that is NOT retried at once: the history goes on and the files after drop equal the undisturbed run; for histories up to the extra bound: every fault point again with ErrorKind Interrupted (the operation failing 1..4 times in a row), WouldBlock (1..2 times), TimedOut, and with writes that accept 0 bytes (an interrupted operation may be tried again, then the run must be indistinguishable from the undisturbed one incl. flushed state; every other kind must be reported), every fault point again on destinations that already hold longer stale content, and every unordered pair of one-shot faults anywhere in the history (files, up to their declared length, equal the undisturbed run of the history without the failed writes); a .shp beyond 2 GiB (two user-defined records of 1 GiB on a discarding destination, a finalize, two small records) with each of the last 80 and first 8 operations of the .shp failing once; one history of 131073 writes (thorough also 300001, and PolylineM) with every seek and flush and the first and last 40 operations of each device failing once; chunking = uniform c in {1,2,3,4,5,7,8,9,15,16,17} (and 7..2^20 on shapes of 8193..70001 points) and, for every write call j, 'call j moves 1 byte' and 'call j moves len-1 bytes'; every case is non-trivial",
             bounds: json!({"max_history": tier.pick(4, 6), "max_history_kinds_pairs_stale": tier.pick(3, 4), "types": types.iter().map(|t| t.name()).collect::<Vec<_>>(), "uniform_chunks": UNIFORM}),
             exhaustive: true,
             assumptions: vec![
@@ -746,6 +997,13 @@ pub fn check(tier: Tier) -> i32 {
 }
 
 pub fn replay(v: &Value) -> Vec<(String, String)> {
+    if v.get("giant_file").is_some() {
+        return giant_verdicts(v.get("operation").and_then(|x| x.as_u64())).0.into_iter().map(|(_, s, d)| (s, d)).collect();
+    }
+    if let (Some(n), Some(k), Some(ty)) = (v.get("long_history").and_then(|x| x.as_u64()), v.get("operation").and_then(|x| x.as_u64()), v.get("ty").and_then(|x| x.as_str()).and_then(Ty::from_name)) {
+        let d = if v.get("fault_on").and_then(|x| x.as_str()) == Some("shp") { 0u8 } else { 1u8 };
+        return long_verdicts(ty, n as usize, Some((d, k))).0.into_iter().map(|(_, s, d)| (s, d)).collect();
+    }
     if let (Some(n), Some(chunk), Some(ty)) = (v.get("points_in_part").and_then(|x| x.as_u64()), v.get("chunk").and_then(|x| x.as_u64()), v.get("ty").and_then(|x| x.as_str()).and_then(Ty::from_name)) {
         return big_verdicts(ty, n as usize, chunk as usize);
     }
